@@ -11,13 +11,13 @@
 using namespace cppcms;
 
 // ---------------- rule sets as plain tables (for the scanner) + as xss::rules (for the code) -------------
-enum Kind { K_BOOL, K_INT, K_ALPHA /* regex [a-z]+ */, K_URI, K_RELURI, K_ABSURI_HTTP /* absolute, scheme http|https */ };
+enum Kind { K_BOOL, K_INT, K_ALPHA /* regex [a-z]+ */, K_ANY /* regex .* : the validator admits everything, so only the general rule (no raw < or > in a value) protects */, K_URI, K_RELURI, K_ABSURI_HTTP /* absolute, scheme http|https */ };
 struct PropSpec { const char *tag,*prop; Kind k; };
 struct TagSpec { const char *name; int type; /*1 open+close 2 standalone 3 any*/ };
 struct RuleSpec { std::string label; bool xhtml; std::vector<TagSpec> tags; std::vector<PropSpec> props; std::vector<std::string> entities; bool numeric, comments; std::string enc; };
 static std::vector<RuleSpec> rule_specs(){ std::vector<RuleSpec> r;
-	TagSpec t1[]={{"a",1},{"b",1},{"i",1},{"br",2},{"img",2},{"input",3}}; PropSpec p1[]={{"a","href",K_URI},{"a","title",K_ALPHA},{"img","src",K_URI},{"input","checked",K_BOOL},{"input","size",K_INT}};
-	RuleSpec a; a.label="xhtml-basic"; a.xhtml=true; a.tags.assign(t1,t1+6); a.props.assign(p1,p1+5); a.entities.push_back("nbsp"); a.numeric=false; a.comments=false; r.push_back(a);
+	TagSpec t1[]={{"a",1},{"b",1},{"i",1},{"br",2},{"img",2},{"input",3}}; PropSpec p1[]={{"a","href",K_URI},{"a","title",K_ALPHA},{"img","src",K_URI},{"input","checked",K_BOOL},{"input","size",K_INT},{"b","title",K_ANY},{"i","title",K_ANY}};
+	RuleSpec a; a.label="xhtml-basic"; a.xhtml=true; a.tags.assign(t1,t1+6); a.props.assign(p1,p1+7); a.entities.push_back("nbsp"); a.numeric=false; a.comments=false; r.push_back(a);
 	RuleSpec b=a; b.label="html-all"; b.xhtml=false; b.numeric=true; b.comments=true; r.push_back(b);
 	RuleSpec c=a; c.label="xhtml-strict-uri"; c.props.clear(); PropSpec p3[]={{"a","href",K_ABSURI_HTTP},{"img","src",K_RELURI},{"input","checked",K_BOOL}}; c.props.assign(p3,p3+3); c.numeric=true; c.comments=true; r.push_back(c);
 	RuleSpec d; d.label="html-minimal"; d.xhtml=false; TagSpec t4[]={{"b",1}}; d.tags.assign(t4,t4+1); d.numeric=false; d.comments=false; r.push_back(d);
@@ -26,7 +26,7 @@ static std::vector<RuleSpec> rule_specs(){ std::vector<RuleSpec> r;
 	return r; }
 static xss::rules build(const RuleSpec &s){ xss::rules r; r.html(s.xhtml?xss::rules::xhtml_input:xss::rules::html_input);
 	for(size_t i=0;i<s.tags.size();i++) r.add_tag(s.tags[i].name,(xss::rules::tag_type)s.tags[i].type);
-	for(size_t i=0;i<s.props.size();i++){ const PropSpec &p=s.props[i]; switch(p.k){ case K_BOOL: r.add_boolean_property(p.tag,p.prop); break; case K_INT: r.add_integer_property(p.tag,p.prop); break; case K_ALPHA: r.add_property(p.tag,p.prop,booster::regex("[a-z]+")); break; case K_URI: r.add_uri_property(p.tag,p.prop); break; case K_RELURI: r.add_property(p.tag,p.prop,xss::rules::relative_uri_validator()); break; case K_ABSURI_HTTP: r.add_property(p.tag,p.prop,xss::rules::uri_validator("(http|https)",true)); break; } }
+	for(size_t i=0;i<s.props.size();i++){ const PropSpec &p=s.props[i]; switch(p.k){ case K_BOOL: r.add_boolean_property(p.tag,p.prop); break; case K_INT: r.add_integer_property(p.tag,p.prop); break; case K_ALPHA: r.add_property(p.tag,p.prop,booster::regex("[a-z]+")); break; case K_ANY: r.add_property(p.tag,p.prop,booster::regex(".*")); break; case K_URI: r.add_uri_property(p.tag,p.prop); break; case K_RELURI: r.add_property(p.tag,p.prop,xss::rules::relative_uri_validator()); break; case K_ABSURI_HTTP: r.add_property(p.tag,p.prop,xss::rules::uri_validator("(http|https)",true)); break; } }
 	for(size_t i=0;i<s.entities.size();i++) r.add_entity(s.entities[i]); r.numeric_entities_allowed(s.numeric); r.comments_allowed(s.comments); if(!s.enc.empty()) r.encoding(s.enc); return r; }
 
 // ---------------- independent lenient scanner -------------------------------------------------------------
@@ -39,6 +39,7 @@ static bool scheme_of(const std::string &raw,std::string &scheme){ // browser-li
 	size_t s=i; if(i<v.size()&&isal(v[i])){ i++; while(i<v.size()&&(isan(v[i])||v[i]=='+'||v[i]=='.'||v[i]=='-')) i++; if(i<v.size()&&v[i]==':'){ scheme=v.substr(s,i-s); for(size_t k=0;k<scheme.size();k++) scheme[k]=tolower((unsigned char)scheme[k]); return true; } } return false; }
 static bool value_ok(Kind k,const std::string &val,std::string &why){ std::string dec=attr_decode(val); std::string sc; switch(k){ case K_BOOL: why="boolean property with a value"; return false;
 	case K_INT:{ size_t i=0; if(i<val.size()&&val[i]=='-') i++; if(i==val.size()){ why="empty integer"; return false;} for(;i<val.size();i++) if(val[i]<'0'||val[i]>'9'){ why="non-digit in integer property"; return false;} return true; }
+	case K_ANY: return true;
 	case K_ALPHA: if(val.empty()){ why="regex [a-z]+ on empty"; return false;} for(size_t i=0;i<val.size();i++) if(val[i]<'a'||val[i]>'z'){ why="value outside [a-z]+"; return false;} return true;
 	case K_URI: if(scheme_of(dec,sc)){ const char *ok[]={"http","https","ftp","mailto","news","nntp"}; for(int i=0;i<6;i++) if(sc==ok[i]) return true; why="URI scheme '"+sc+"' not white-listed"; return false; } return true;
 	case K_RELURI: if(scheme_of(dec,sc)){ why="scheme in a relative-only URI"; return false;} return true;
@@ -95,8 +96,9 @@ static void markup_pass(int sh,int n,int tlen,int clen,bool outcomes){ size_t nc
 	all_seq(chars(),clen,sh,n,[&](const std::string &s){ vf::announce("chars "+vf::hex(s)); for(size_t k=0;k<g_cfg.size();k++) one(g_cfg[k],s,true,outcomes&&s.size()<=3); }); (void)ncfg; flush(); }
 // targeted attribute / URI values inside a white-listed tag (scheme obfuscations a browser would still execute)
 static void uri_pass(int sh,int n){ const char *vals[]={"javascript:alert(1)","JaVaScRiPt:x","java\tscript:x","java&#x09;script:x"," javascript:x","&#106;avascript:x","jav&#x61;script:x","vbscript:x","data:text/html,x","http://a/b","HTTPS://a","//host/p","/p?a=1&amp;b=2","p#f","mailto:a@b","ftp://h","x:y","http:","","a b","http://a/%zz","http://[::1]/","?q","&amp;","&lt;script&gt;","'","\"","&apos;","&#39;","&#x27;","-12","12","1x","abc","ABC","a&amp;b",
-		/* schemes with every character class RFC 3986 allows after the first letter, and near misses */ "ms-msdt:/id","view-source:http://a/","x-javascript:alert(1)","a-b:c","a+b:c","a.b:c","a_b:c","-a:b","+a:b",".a:b","1a:b","a1:b","http-x://h/","svn+ssh://h/p","z39.50s://h","a:","a:b","ab:c","http-:x","h-t-t-p://x","java-script:x","a--b:c","a-:b","data-x:1"};
-	const char *tmpl[]={"<a href='%'>t</a>","<a href=\"%\">t</a>","<a title='%'>t</a>","<img src='%'/>","<img src='%'>","<input size='%'/>","<input checked='%'/>","<a href='%' href='x'>t</a>","<A HREF='%'>t</A>","<a href ='%'>t</a>","<a href= '%'>t</a>","<a\thref='%'>t</a>","<a href='%'title='abc'>t</a>"}; int idx=0;
+		/* schemes with every character class RFC 3986 allows after the first letter, and near misses */ "ms-msdt:/id","view-source:http://a/","x-javascript:alert(1)","a-b:c","a+b:c","a.b:c","a_b:c","-a:b","+a:b",".a:b","1a:b","a1:b","http-x://h/","svn+ssh://h/p","z39.50s://h","a:","a:b","ab:c","http-:x","h-t-t-p://x","java-script:x","a--b:c","a-:b","data-x:1",
+		/* raw markup characters inside a quoted value (only the general rule rejects them when the property validator admits everything) */ "<","x<script","<b>","a>b",">","x<","<!--","&lt;b&gt;","a&b","x y"};
+	const char *tmpl[]={"<a href='%'>t</a>","<a href=\"%\">t</a>","<a title='%'>t</a>","<img src='%'/>","<img src='%'>","<input size='%'/>","<input checked='%'/>","<a href='%' href='x'>t</a>","<A HREF='%'>t</A>","<a href ='%'>t</a>","<a href= '%'>t</a>","<a\thref='%'>t</a>","<a href='%'title='abc'>t</a>","<b title='%'>t</b>","<b title=\"%\">t</b>","<i title='%'>t</i>x","<B TITLE='%'>t</B>"}; int idx=0;
 	for(size_t i=0;i<sizeof(vals)/sizeof(*vals);i++) for(size_t t=0;t<sizeof(tmpl)/sizeof(*tmpl);t++){ if((idx++%n)!=sh) continue; std::string s=tmpl[t]; size_t p=s.find('%'); s.replace(p,1,vals[i]); vf::announce("uri "+vf::hex(s)); for(size_t k=0;k<g_cfg.size();k++) one(g_cfg[k],s,true,true); vf::guard("uri_cases"); } flush(); }
 // numeric character references at and around every boundary of the allowed set, in every spelling (radix, case, leading zeros, 9..40 digits):
 // text that validates must only contain references to allowed code points; filter output likewise (through the scanner)
